@@ -51,6 +51,30 @@ theorem removeOpcodeByData_eq_spec (s sig : Bytes) (h : parses s = true) :
     findAndDelete s sig = some (removeOpcodeByData s sig) :=
   Lemmas.removeOpcodeByData_eq_findAndDelete s sig h
 
+/-- What the interpreter's legacy CHECKSIG signs: FindAndDelete of the signature, then the digest
+(which removes the code separators) = the Spec digest over `legacyScriptCode`. -/
+theorem engine_legacy_digest (H : Bytes → Bytes) (sub sig : Bytes) (ht : UInt32) (tx : Tx) (idx : Nat)
+    (hi : idx < tx.ins.length) (hp : parses sub = true) :
+    calcSignatureHash H (removeOpcodeByData sub sig).1 ht tx idx =
+      Lemmas.outOfOpt ((legacyScriptCode sub sig).bind (fun sc => legacyDigest H sc ht tx idx)) := by
+  obtain ⟨ts, hts⟩ := Lemmas.parse_of_parses sub hp
+  have hfd := Lemmas.removeOpcodeByData_eq_findAndDelete sub sig hp
+  by_cases hsig : sig = []
+  · subst hsig
+    have : (removeOpcodeByData sub []).1 = sub := by simp [removeOpcodeByData]
+    rw [this, legacy_raw_model_eq_spec H sub ht tx idx hi hp]
+    simp [legacySigHash, stripOp, legacyScriptCode, hts]
+  · have hs' : (removeOpcodeByData sub sig).1 =
+        (ts.filter (fun t => !(isCanonicalPush t.op t.data && t.data == sig))).flatMap (·.raw) := by
+      simp only [findAndDelete, hsig, if_false, hts, Option.map_some, Option.some.injEq] at hfd
+      rw [← hfd]
+    have hparse := Lemmas.parse_filter sub ts (fun t => !(isCanonicalPush t.op t.data && t.data == sig)) hts
+    rw [hs', legacy_raw_model_eq_spec H _ ht tx idx hi (Lemmas.parses_of_parse _ _ hparse)]
+    simp only [legacySigHash, stripOp, legacyScriptCode, hts, hparse, Option.map_some, Option.bind_some]
+    have hd : decide (sig ≠ []) = true := by simpa using hsig
+    simp only [hd, Bool.true_and]
+
+
 /-- BIP143 with the midstates of `NewTxSigHashes`, provided they were computed for a transaction
 with at least one non-taproot input (`hasV0Inputs`, which holds whenever the signed input is v0). -/
 theorem wit_model_eq_spec (H : Bytes → Bytes) (sub : Bytes) (ht : UInt32) (tx : Tx)
